@@ -216,7 +216,7 @@ impl Sys {
         let key_mods = kit.moduli_at(kit.ctx.key_parms_id());
         let q0 = key_mods[0];
         let root = kit.ctx.key_context_data().unwrap().small_ntt_tables()[0].root();
-        let s0 = naive_intt(&kit.sk.data()[..n], root, q0);
+        let s0 = if n >= 128 { crate::refmodel::ntt::fast_intt(&kit.sk.data()[..n], root, q0) } else { naive_intt(&kit.sk.data()[..n], root, q0) };
         let sk: Vec<i64> = s0.iter().map(|&v| if v == 0 { 0 } else if v == 1 { 1 } else if v == q0 - 1 { -1 } else { i64::MAX }).collect();
         if sk.iter().any(|&v| v == i64::MAX) {
             return Err("secret key is not ternary under the independent inverse transform".into());
@@ -311,9 +311,16 @@ impl Sys {
             let mut spow = pad(&[1], n);
             for i in 0..ct.size() {
                 let comp = &ct.poly(i)[j * n..(j + 1) * n];
-                let c = if ct.is_ntt_form() { naive_intt(comp, root, q) } else { comp.to_vec() };
-                acc = padd(&acc, &pmul(&c, &spow, q), q);
-                spow = pmul(&spow, &s, q);
+                // N >= 128: the O(N log N) reference transform (validated against the by-definition one in the self-test)
+                let big = n >= 128;
+                let c = if !ct.is_ntt_form() { comp.to_vec() } else if big { crate::refmodel::ntt::fast_intt(comp, root, q) } else { naive_intt(comp, root, q) };
+                if big {
+                    acc = padd(&acc, &crate::refmodel::ntt::fast_negacyclic_mul(&c, &spow, root, q), q);
+                    spow = crate::refmodel::ntt::fast_negacyclic_mul(&spow, &s, root, q);
+                } else {
+                    acc = padd(&acc, &pmul(&c, &spow, q), q);
+                    spow = pmul(&spow, &s, q);
+                }
             }
             per_prime.push(acc);
         }
@@ -1255,7 +1262,7 @@ impl AnySection for E2Section {
                     abs_fix = true;
                     break;
                 }
-                if rep.cfg.remaining().as_secs_f64() < 3.0 || abs_rounds > 24 {
+                if rep.cfg.remaining().as_secs_f64() < 3.0 || abs_rounds > 24 + sys.levels.len() {
                     capped = true;
                     break;
                 }
@@ -1379,6 +1386,19 @@ pub fn param_sets(cfg: &RunCfg) -> Vec<(String, ParamSpec, usize, bool)> {
     // short chains: programs run the budget down to zero
     v.push(("bfv_p11_short".to_string(), ParamSpec::new(Scheme::BFV, 4, chain(4, &[30, 27, 30]), 17), 2, true));
     v.push(("bgv_p12_short".to_string(), ParamSpec::new(Scheme::BGV, 4, chain(4, &[40, 30, 40]), 17), if th { 3 } else { 2 }, true));
+    // many primes at a tiny degree: accumulation counters / per-prime tables sized for "the usual" chain length (seeded
+    // changes C04-E: lazy-reduction bound hit at exactly 8 data primes; C14-F: a table of 8 entries). The chain passes through
+    // EVERY number of data primes from k-1 down to 1 in the abstract closure.
+    v.push(("bfv_p24_10primes".to_string(), ParamSpec::new(Scheme::BFV, 4, chain(4, &[40; 10]), 17), 1, true));
+    // production-size degree (blocked / tiled code paths, tables indexed beyond 64 / 256): depth-1 closure + abstract fixpoint
+    v.push(("bfv_p26_n1024".to_string(), ParamSpec::new(Scheme::BFV, 1024, chain(1024, &[50, 50, 50, 60]), 65537), 1, true));
+    if th {
+        v.push(("bfv_p29_n4096_9primes".to_string(), ParamSpec::new(Scheme::BFV, 4096, chain(4096, &[50, 50, 50, 50, 50, 50, 50, 50, 60]), 65537), 1, true));
+        v.push(("bgv_p30_n8192".to_string(), ParamSpec::new(Scheme::BGV, 8192, chain(8192, &[55, 55, 55, 60]), 65537), 1, true));
+        v.push(("bgv_p25_18primes".to_string(), ParamSpec::new(Scheme::BGV, 4, chain(4, &[45; 18]), 17), 1, true));
+        v.push(("bfv_p28_34primes".to_string(), ParamSpec::new(Scheme::BFV, 4, chain(4, &[30; 34]), 17), 1, true));
+        v.push(("bgv_p27_n512".to_string(), ParamSpec::new(Scheme::BGV, 512, chain(512, &[50, 50, 50, 60]), 12289), 1, true));
+    }
     if th {
         v.push(("bfv_p9_n16".to_string(), ParamSpec::new(Scheme::BFV, 16, chain(16, &[60, 60, 60, 60]), 97), 2, true));
         v.push(("bgv_p10_two".to_string(), ParamSpec::new(Scheme::BGV, 4, chain(4, &[60, 60]), 17), 2, true));
